@@ -367,3 +367,53 @@ def audit_ownership():
                 if hit and (p, n.lineno) not in allowed:
                     off.append((p, n.lineno, hit))
     return off
+
+
+# ------------------------------------------------------------------------------------------------ connect-by-call
+def call_obligations():
+    """_Instance.__call__(**kwargs): the loop body located in the current source, executed for one keyword of each
+    naming class - ordinary, leading underscore, every Instance keyword in `_specialcases`: each keyword reaches
+    `connect(key, val)` exactly once, whatever it is called (connect-by-call must not inherit the attribute-name escape
+    hatches of connect-by-assignment: ports named `_sub`, `name`, `of`, ... are ports)."""
+    import ast
+    from pyvc import loader
+    from pyvc.engine import Frame
+    key = "hdl21.instance:_Instance.__call__"
+    ext = loader.extract(key)
+    info = {"sha": ext.sha, "lines": ext.lines, "path": ext.path, "paths": 0, "scenarios": 0, "unsupported": []}
+    loops = [n for n in ast.walk(ext.node) if isinstance(n, ast.For)]
+    if len(loops) != 1 or not isinstance(loops[0].target, ast.Tuple):
+        info["unsupported"].append("the keyword loop of __call__ was not found")
+        return key, [], info
+    loop = loops[0]
+    names = ["p", "_sub", "_bulk"] + sorted(set(getattr(Instance, "_specialcases", [])))
+    obs = []
+    for nm in names:
+        eng = mk_engine(contracts=CONTRACTS, inline=INLINE, field_classes=FIELD_CLASSES)
+        st = eng.new_state()
+        me = sym_ref(st, "self", (Instance,))
+        st.assume(st.heap.get("_initialized", me.z))
+        st.assume(z3.And(inv_conn(st), inv_refs(st)))
+        val = sym_ref(st, "val", CONNECTABLES)
+        tk, tv = (t.id for t in loop.target.elts)
+        st.locals = {"self": me, "kwargs": {nm: val}, tk: nm, tv: val}
+        eng.frames.append(Frame(ext, ext.key))
+        eng.cuts = []
+        try:
+            outs = eng.exec_block(loop.body, st)
+        except Unsupported as e:
+            info["unsupported"].append(f"keyword {nm!r}: {e}")
+            continue
+        finally:
+            eng.frames.pop()
+        info["scenarios"] += 1
+        for pi, (kind, s2, v) in enumerate(outs):
+            info["paths"] += 1
+            if kind == "exc":
+                continue
+            calls = [c for c in s2.calls if c[0] == ConnectContract.key]
+            ok = len(calls) == 1 and calls[0][1].portname == nm and calls[0][1].conn is val and calls[0][1].self is me
+            o = Obligation(f"{key}/keyword-{nm}/p{pi}/post.reaches-connect", "post", list(s2.pc), z3.BoolVal(ok), key,
+                           f"keyword-{nm}", pi, {"trace": list(s2.trace), "havoc": list(s2.ghost.get("havoc", ()))})
+            obs.append(o)
+    return key, obs, info
